@@ -303,6 +303,33 @@ def evaluate_direct(out, rc, err, var):
     return V, n
 
 
+def evaluate_custom(out, rc, err, var):
+    """user callbacks (IMB_CIPHER_CUSTOM / IMB_AUTH_CUSTOM) that succeed or fail, both chain orders, deferred or not:
+    status exactly COMPLETED, or exactly INTERNAL_ERROR when a callback that ran returned non-zero; descriptor untouched"""
+    V, n = [], 0
+    for l in out.splitlines():
+        if l.startswith("U "):
+            d = kv(l)
+            n += 1
+            st, anyfail = int(d["status"]), int(d["anyfail"])
+            where = dict(var=var, ep=int(d["ep"]), id=-1, item=None, custom=l)
+            cls = "c%s-h%s-order%s" % (d["c"], d["h"], d["order"])
+            if st not in (3, 4, 5, 6):
+                V.append(dict(sig="partial-status:custom:" + cls, what="custom-callback job handed back with status %d (%s)" % (st, ST_NAMES.get(st, "?")), **where))
+            elif st != (5 if anyfail else 3):
+                V.append(dict(sig="wrong-status:custom:" + cls, what="custom-callback job: status %d, expected %d (a callback %s)" % (st, 5 if anyfail else 3, "failed" if anyfail else "did not fail"), **where))
+            if d["same"] != "1":
+                V.append(dict(sig="descriptor-field-changed:custom:" + cls, what="descriptor of a custom-callback job altered", **where))
+            if int(d["get"]) != 0 or int(d["field"]) != 0:
+                V.append(dict(sig="errno-nonzero-after-success:custom:" + cls, what="call handing back a custom-callback job left get=%s field=%s" % (d["get"], d["field"]), **where))
+        elif l.startswith("X "):
+            d = kv(l)
+            V.append(dict(sig="anomaly:" + d["what"].split("(")[0], var=var, ep=int(d["ep"]), id=-1, item=None, what=d["what"], custom=l))
+    if rc != 0 or n == 0:
+        V.append(dict(sig="crash-or-hang:custom", var=var, ep=-1, id=-1, item=None, custom="battery", what="custom battery exit %s, %d results: %s" % (rc, n, err[-300:])))
+    return V, n
+
+
 def evaluate_strerror(out, rc, t9):
     V = []
     got = {}
@@ -357,6 +384,7 @@ def run_all(exe, items, expect, variants, tier, workdir, eps="0123"):
             batch = [1, 4, 8, 16, 32][(vi + ci) % 5]
             jobs.append(("jobs", v, p, batch))
         jobs.append(("direct", v, None, 0))
+        jobs.append(("custom", v, None, 0))
     jobs.append(("strerror", None, None, 0))
 
     def one(j):
@@ -365,6 +393,8 @@ def run_all(exe, items, expect, variants, tier, workdir, eps="0123"):
             rc, out, err = run_cmd([exe, "--jobs", p, "--variant", v, "--batch", str(batch), "--eps", eps], 600)
         elif kind == "direct":
             rc, out, err = run_cmd([exe, "--direct", "--variant", v], 120)
+        elif kind == "custom":
+            rc, out, err = run_cmd([exe, "--custom", "--variant", v], 300)
         else:
             rc, out, err = run_cmd([exe, "--strerror"], 120)
         return j, rc, out, err
@@ -452,7 +482,7 @@ def main(tier, seed):
     runs, lines_by_id = run_all(exe, items, expect, variants, tier, workdir)
     V, corr = [], list(terrs)
     tot = dict(results=0, status={}, by_ep={}, invalid=0, errno_checked_calls=0)
-    direct_n, strerr_n = 0, 0
+    direct_n, strerr_n, custom_n = 0, 0, 0
     seen_all = {}
     for (kind, v, p, batch), rc, out, err in runs:
         if kind == "jobs":
@@ -471,6 +501,10 @@ def main(tier, seed):
             vv, n = evaluate_direct(out, rc, err, v)
             V += vv
             direct_n += n
+        elif kind == "custom":
+            vv, n = evaluate_custom(out, rc, err, v)
+            V += vv
+            custom_n += n
         else:
             if t9 is not None:
                 vv, strerr_n, c2 = evaluate_strerror(out, rc, t9)
@@ -488,7 +522,8 @@ def main(tier, seed):
     suites = sorted(set((d["cipher"], d["hash"]) for _, d in items))
     nontrivial = len(set((d["cipher"], d["hash"], d.get("order", "1"), d.get("dir", "1")) for k, d in items))
     res.coverage.update({
-        "evaluations": tot["results"] + direct_n + strerr_n,
+        "evaluations": tot["results"] + direct_n + strerr_n + custom_n,
+        "custom_callback_jobs": custom_n,
         "distinct_nontrivial": nontrivial,
         "rule": "one evaluation = one job handed back by the library (descriptor compared cell by cell with its pre-submit snapshot, status and "
                 "error-code views checked), or one direct/housekeeping API call of the battery, or one imb_get_strerror argument; "
@@ -518,7 +553,7 @@ def verdict(res, pres, V, corr, exe, variants, seed, tier):
         x = xs[0]
         res.violation({"property": PID, "signature": sig, "occurrences": len(xs), "first": x,
                        "variants_affected": sorted(set(str(y.get("var")) for y in xs))[:12], "seed": seed,
-                       "replay_kind": "item" if x.get("item") else ("direct" if "name" in x else "other")},
+                       "replay_kind": "item" if x.get("item") else ("direct" if "name" in x else "custom" if "custom" in x else "other")},
                       note=sig, name=re.sub(r"[^A-Za-z0-9_.-]+", "_", sig)[:60])
         reported += 1
     for f in pres["failed"]:
@@ -586,6 +621,13 @@ def replay(path):
                 print("VIOLATES:", y["sig"], y["what"])
             bad += len(vv)
         return 1 if bad else 0
+    if "custom" in x:
+        rc, out, err = run_cmd([exe, "--custom", "--variant", x["var"]], 300)
+        vv, n = evaluate_custom(out, rc, err, x["var"])
+        vv = [y for y in vv if y["sig"] == rp.get("signature")]
+        for y in vv[:20]:
+            print("VIOLATES:", y["sig"], y["what"], "::", y.get("custom"))
+        return 1 if vv else 0
     if "name" in x:
         rc, out, err = run_cmd([exe, "--direct", "--variant", x["var"]], 120)
         vv, n = evaluate_direct(out, rc, err, x["var"])
